@@ -617,7 +617,8 @@ impl Connection {
             _ => 0,
         };
         let token = match self.state {
-            State::Unconnected => unreachable!(),
+            // Closing a connection that was never accepted (`Net::reject`).
+            State::Unconnected => None,
             // Signal support for the token protocol.
             State::Connecting => Some(TOKEN_NONE),
             State::Pending(ref pending) => pending.token,
